@@ -427,9 +427,14 @@ namespace details {
 			if(full_buffering_) {
 				buffer_size_ = size;
 				std::streamsize content_size = pptr() - pbase();
-				if(size_t(size) > output_.size())
-					output_.resize(size);
-				do_setp();
+				// nothing is sent in full buffering mode until an explicit flush,
+				// so the buffer must never shrink below the data it already holds
+				size_t new_size = content_size > size ? content_size : size;
+				output_.resize(new_size);
+				if(new_size == 0)
+					setp(0,0);
+				else
+					setp(&output_[0],&output_[0]+new_size);
 				pbump(content_size);
 				return this;
 			}
